@@ -148,8 +148,10 @@ def pick_container(rng, cfg, comb, allow_zero=True):
     return cont, n
 
 
-def gen_fixed(rng, cfg, combs, count, tag, panic=0.03, style="mixed", allow_zero=True, large=False):
-    """large: only containers beyond the boundaries (arrays of 23 / 65, Vecs of 22 .. 200 children)"""
+def gen_fixed(rng, cfg, combs, count, tag, panic=0.03, style="mixed", allow_zero=True, large=False, long=False):
+    """large: only containers beyond the boundaries (arrays of 23 / 65, Vecs of 22 .. 200 children)
+       long: few children with LONG lives - futures that answer Pending 20 .. 70 times, streams of 20 .. 70 steps - polled to the very end (no
+       property bounds the length of a child's life, so no generator should)"""
     out = []
     for c in range(count):
         comb = rng.choice(combs)
@@ -158,18 +160,21 @@ def gen_fixed(rng, cfg, combs, count, tag, panic=0.03, style="mixed", allow_zero
             n = rng.choice([23, 65]) if cont == "array" else rng.choice(VEC_BOUNDARY)
         else:
             cont, n = pick_container(rng, cfg, comb, allow_zero)
+            while long and not (1 <= n <= 3):
+                cont, n = pick_container(rng, cfg, comb, False)
         r = rng.random()
-        drain = style == "drain" or (style == "mixed" and r >= (0.5 if large else 0.85))     # large containers: half of the cases run to completion
+        drain = long or style == "drain" or (style == "mixed" and r >= (0.5 if large else 0.85))     # large containers: half of the cases run to completion
         allready = drain and rng.random() < 0.25       # nobody ever answers Pending: everything is ready in every poll
+        ml = {"maxlen": rng.randint(20, 70)} if long else {}
         if comb in FUT:
-            scs = ";".join(fscript(rng, n, i, comb in TRY, panic, 0.6 if comb == "race_ok" else 0.3, drain=drain, **({"maxlen": 0} if allready else {})) for i in range(n))
+            scs = ";".join(fscript(rng, n, i, comb in TRY, panic, 0.6 if comb == "race_ok" else 0.3, drain=drain, **({"maxlen": 0} if allready and not long else ml)) for i in range(n))
         else:
-            scs = ";".join(sscript(rng, n, i, panic, drain=drain, **({"ppend": 0.0} if allready else {})) for i in range(n))
+            scs = ";".join(sscript(rng, n, i, panic, drain=drain, **ml, **({"ppend": 0.0} if allready else {})) for i in range(n))
         if drain:
             # polls until everything has been consumed (one result per poll at most), a few stale wake-ups in between, polls after the end
             total = sum(len(x.split(",")) for x in scs.split(";")) if n else 0
             ops = []
-            for _ in range(min(total, 40) + 3):
+            for _ in range((total if long else min(total, 40)) + 3):
                 ops.append("p" if rng.random() < 0.85 else "q")
                 if n > 0 and rng.random() < 0.15:
                     ops.append(f"f{pick_child(rng, n)}.{rng.randrange(3)}")
@@ -230,7 +235,11 @@ def gen_wait(rng, count, tag, panic=0.03):
     return out
 
 
-def gen_groups(rng, count, tag, kinds=("fgroup", "fgroup_keyed", "sgroup", "sgroup_keyed"), maxops=30, panic=0.03):
+def gen_groups(rng, count, tag, kinds=("fgroup", "fgroup_keyed", "sgroup", "sgroup_keyed"), maxops=30, panic=0.03, long=False):
+    """long: a group with a long life - up to 200 operations (many rounds of insert / complete / remove: slab keys reused over and over), member
+       streams of up to 40 steps, drained at the end"""
+    if long:
+        maxops = 200
     out = []
     for c in range(count):
         comb = rng.choice(kinds)
@@ -238,9 +247,10 @@ def gen_groups(rng, count, tag, kinds=("fgroup", "fgroup_keyed", "sgroup", "sgro
         ops = []
         nm = 0
         extborn = set()
-        drain = rng.random() < 0.15       # members wake themselves, the history ends with polls until the group is empty (and a few more)
-        fs = (lambda rng, n, i, tryj, panic: fscript(rng, n, i, tryj, drain=True)) if drain else fscript
-        ss = (lambda rng, n, i, panic: sscript(rng, n, i, drain=True)) if drain else sscript
+        drain = long or rng.random() < 0.15       # members wake themselves, the history ends with polls until the group is empty (and a few more)
+        lm = {"maxlen": 40} if long else {}
+        fs = (lambda rng, n, i, tryj, panic: fscript(rng, n, i, tryj, drain=True, **({"maxlen": 12} if long else {}))) if drain else fscript
+        ss = (lambda rng, n, i, panic: sscript(rng, n, i, drain=True, **lm)) if drain else sscript
         if cap == 0 and rng.random() < 0.12:
             # FromIterator: the group is collected from an iterator of members (keys unknown, like extend)
             k = rng.randint(1, 3)
@@ -248,9 +258,9 @@ def gen_groups(rng, count, tag, kinds=("fgroup", "fgroup_keyed", "sgroup", "sgro
             ops.append("iter(" + ";".join(mk(j) for j in range(k)) + ")")
             extborn.update(range(k))
             nm = k
-        for _ in range(rng.randint(2, maxops)):
+        for _ in range(rng.randint(60 if long else 2, maxops)):
             r = rng.random()
-            if r < 0.28:
+            if r < (0.12 if long else 0.28):
                 sc = fs(rng, max(nm, 1), nm, False, panic) if comb.startswith("f") else ss(rng, max(nm, 1), nm, panic)
                 ops.append(f"ins({sc})")
                 nm += 1
@@ -288,7 +298,7 @@ def gen_groups(rng, count, tag, kinds=("fgroup", "fgroup_keyed", "sgroup", "sgro
         if drain:
             ops = [o for o in ops if o != "d"]
             steps = sum(o.count(",") + o.count(";") + 1 for o in ops if o[:4] in ("ins(", "ext(", "iter"))
-            ops += ["p"] * (min(steps, 40) + 3)
+            ops += ["p"] * ((steps if long else min(steps, 40)) + 3)
         out.append(f"{tag}{c} {comb} group n={cap}  | {' '.join(ops)}")
     return out
 
